@@ -714,6 +714,27 @@ fn c08_blocking() {
     });
 }
 
+/// a thread parked in acquire_arc_blocking is first in line, an async waiter second; two permits
+/// are released in a row: both must get one (the blocking waiter has to pass the wake-up on)
+fn c07_blocking_two() {
+    model(2, || {
+        let s = std::sync::Arc::new(Semaphore::new(2));
+        let g1 = s.try_acquire_arc().unwrap();
+        let g2 = s.try_acquire_arc().unwrap();
+        let s1 = s.clone();
+        let a = spawn(move || s1.acquire_arc_blocking());
+        let s2 = s.clone();
+        let b = spawn(move || block_on(s2.acquire_arc()));
+        drop(g1);
+        drop(g2);
+        // neither waiter releases before both have a permit
+        let ga = a.join().unwrap();
+        let gb = b.join().unwrap();
+        drop(ga);
+        drop(gb);
+    });
+}
+
 // ---------------------------------------------------------------- cancellation races (C10)
 
 fn poll_once<F: Future>(f: std::pin::Pin<&mut F>) -> Poll<F::Output> {
@@ -806,6 +827,7 @@ const ALL: &[(&str, fn())] = &[
     ("c03_blocking", c03_blocking),
     ("c09_blocking", c09_blocking),
     ("c08_blocking", c08_blocking),
+    ("c07_blocking_two", c07_blocking_two),
     ("c10_mutex_cancel", c10_mutex_cancel),
     ("c10_rw_cancel", c10_rw_cancel),
     ("c10_sem_cancel", c10_sem_cancel),
